@@ -22,6 +22,8 @@ import (
 	"strings"
 	"sync"
 	"time"
+	"unicode"
+	"unicode/utf8"
 
 	"go.uber.org/zap"
 	"google.golang.org/grpc"
@@ -306,15 +308,16 @@ var uniSpaces = []string{" ", " ", "  ", "\t", "\u00a0", "\u0085", "\u2003", "\u
 // parseChannel: parser.parsePipeFields / parseFieldList / parseCompositeToken (through search.tryParseFieldsFilter)
 // vs SV.Fields.parsePipeFields on the token list the lexer produces for the generated text.
 func parseChannel(o vh.Opts, r *vh.RNG) *vh.Channel {
-	ch := vh.NewChannel("fields.parse", "search.tryParseFieldsFilter(`service:c20 | <text>`) vs SV.Fields.parsePipeFields on the lexer tokens of <text> (text, quoted, space-skipped): keywords fields/except in lower, UPPER, Capitalised spelling and with the non-ASCII fold partner (fieldſ), quoted keywords as names, composite names glued without white space (a-b, a.b, a_b-c, a\"b c\", x*), symbol tokens ($ % & @ - *) alone and inside names, white space of every unicode kind between names, optional commas, error shapes (missing list, leading / trailing / double comma, no fields keyword, bare symbol); non-trivial = the pipe parses")
+	ch := vh.NewChannel("fields.parse", "search.tryParseFieldsFilter(`service:c20 | <text>`) vs SV.Fields.parsePipeFields on the lexer tokens of <text> (text, quoted, space-skipped): keywords fields/except in lower, UPPER, Capitalised spelling and with the non-ASCII fold partner (fieldſ), quoted keywords as names, composite names glued without white space (a-b, a.b, a_b-c, a\"b c\", x*), symbol tokens ($ % & @ - * and the non-ASCII € — ™ ° ¿ 😀) alone and inside names, non-ASCII letters and digits (é ж 中 ٣) in names - the letter/digit answer for the first rune of a token is Go's unicode.IsLetter/IsDigit, passed to the model as an oracle bit, white space of every unicode kind between names, optional commas, error shapes (missing list, leading / trailing / double comma, no fields keyword, bare symbol); non-trivial = the pipe parses")
 	type tok struct {
 		text   string
 		quoted bool
 		word   bool // a run of token runes (two of them need white space in between)
 	}
-	words := []string{"a", "b", "message", "k8s_pod", "level", "a.b", "ts", "zone_1", "x", "é", "日本", "Except", "or", "fields"}
+	words := []string{"a", "b", "message", "k8s_pod", "level", "a.b", "ts", "zone_1", "x", "é", "日本", "Except", "or", "fields",
+		"ж", "中", "٣", "naïve", "٣٤", "éa", "x٣"} // letters and digits of several scripts
 	quotedNames := []string{"except", "EXCEPT", "fields", "x y", "a|b", "", "k$"}
-	symbols := []string{"$", "%", "&", "@", "-", "-", "*"}
+	symbols := []string{"$", "%", "&", "@", "-", "-", "*", "€", "—", "™", "°", "¿", "😀"} // one rune each; the non-ASCII ones are no letters
 	n := o.Pick(1200, 15000)
 	for i := 0; i < n; i++ {
 		var ts []tok
@@ -399,6 +402,20 @@ func parseChannel(o vh.Opts, r *vh.RNG) *vh.Channel {
 				m += "s"
 			} else {
 				m += "n"
+			}
+			// the unicode oracle: Go's own answer for the first rune
+			first, _ := utf8.DecodeRuneInString(t.text)
+			if t.text != "" && (unicode.IsLetter(first) || unicode.IsDigit(first)) {
+				m += "l"
+			} else {
+				m += "x"
+			}
+			if first >= 0x80 && !t.quoted {
+				if strings.HasSuffix(m, "l") {
+					tags = append(tags, "non-ascii-letter-or-digit")
+				} else {
+					tags = append(tags, "non-ascii-symbol")
+				}
 			}
 			model = append(model, m+nameHex(t.text))
 		}
